@@ -214,6 +214,20 @@ def despace(g, rnd):
     return g
 
 
+def narrow_one_tier(g, rnd):
+    """a copy of `g` in which one tier keeps its entries but has a span of its own inside the textgrid's"""
+    import copy
+    g = copy.deepcopy(g)
+    t = rnd.choice(g["tiers"])
+    times = [x for e in t["es"] for x in e[:-1]]
+    first, last = (min(times), max(times)) if times else (g["hi"] / 4.0, g["hi"] / 2.0)
+    lo = rnd.choice([first, first / 2.0, round(first / 3.0, 3)])
+    hi = rnd.choice([last, (last + g["hi"]) / 2.0, round((last + g["hi"]) / 2.0, 3)])
+    if g["lo"] <= lo <= first and last <= hi <= g["hi"] and lo < hi:
+        t["lo"], t["hi"] = float(lo), float(hi)
+    return g
+
+
 def corpus():
     g = {"lo": 0.0, "hi": 5.0, "tiers": [{"k": "I", "name": "a", "es": [[1e-05, 2.0, "x"]], "lo": 0.0, "hi": 5.0}]}
     for fmt in ioops.FORMATS:                                              # A8 (fixed): exponent numerals
@@ -375,7 +389,10 @@ def gen_main(rnd, tier):
         labels = ioops.PLAIN_LABELS + (ioops.KEYWORD_LABELS if kw else [])
         names = ioops.NAMES + (ioops.KEYWORD_NAMES if kw and rnd.random() < 0.3 else [])
         g = despace(ioops.gen_tg(rnd, rnd.choice(["full", "full", "simple"]), labels=labels, names=names), rnd)
-        yield {"op": "roundtrip", "tg": g, "fmt": rnd.choice(ioops.FORMATS), "blanks": rnd.random() < 0.6, "iei": rnd.random() < 0.5,
+        blanks = rnd.random() < 0.6
+        if not blanks and rnd.random() < 0.3:
+            g = narrow_one_tier(g, rnd)         # the tier's own span must survive the round trip (not in the plain json format)
+        yield {"op": "roundtrip", "tg": g, "fmt": rnd.choice(ioops.FORMATS), "blanks": blanks, "iei": rnd.random() < 0.5,
                "stream": "keyword" if kw else "plain"}
 
 
